@@ -159,7 +159,9 @@ def r4_issuer_provenance(run):
         if isinstance(s, ast.Assign) and "issuer.text" in unparse(s.value) and \
                 "item." not in unparse(s.value):
             gs = facts(cfg, nd.id)
-            run.check(Q("_issuer is None", True) in gs, "R4",
+            # guarded by "<the variable being (re)assigned> is None"
+            tgt = unparse(s.targets[0])
+            run.check(Q("%s is None" % tgt, True) in gs, "R4",
                       fi.qual + "::issuer-fallback-guard",
                       "parameter issuer used only when the element has none",
                       "issuer parameter overrides the element's own Issuer "
